@@ -1196,4 +1196,9 @@ func propC15(r *Run, w *World) {
 	boundsRule(r, w, "C15.R4", "aucoalesce", x.scope())
 	// R5
 	c15Deterministic(r, w, "C15.R5")
+	// a message reports the same before and after being coalesced only if what Data()/Tags()
+	// hand out is computed once: shared with C05.R3
+	if ax := loadAup(r, w); ax.ok {
+		ax.dataIdempotence("C15.R7")
+	}
 }
